@@ -128,3 +128,21 @@ void hp_hwloc_obj_attr_snprintf(void)
   CHECK_SNPRINTF_CONTRACT(r, buf, size);
   VERIF_CANARY();
 }
+
+/* hwloc_type_sscanf on an ARBITRARY NUL-terminated string of <= TLEN bytes (bounded): returns 0 or -1, memory safe,
+ * and an accepted string yields a valid type */
+#ifndef TLEN
+#define TLEN 5
+#endif
+struct verif_tstr { char c[TLEN + 1]; };
+struct verif_tstr nondet_tstr(void);
+void hp_hwloc_type_sscanf(void)
+{
+  struct verif_tstr s = nondet_tstr(); hwloc_obj_type_t type = (hwloc_obj_type_t)-1; union hwloc_obj_attr_u attr; int r; size_t asz = nondet_size_t();
+  s.c[TLEN] = 0;
+  __CPROVER_assume(asz == 0 || asz == sizeof(attr));
+  r = hwloc_type_sscanf(s.c, &type, asz ? &attr : (union hwloc_obj_attr_u *)0, asz);
+  __CPROVER_assert(r == 0 || r == -1, "returns 0 or -1");
+  __CPROVER_assert(r != 0 || (unsigned)type < HWLOC_OBJ_TYPE_MAX, "an accepted string yields a valid object type");
+  VERIF_CANARY();
+}
